@@ -46,7 +46,13 @@ import (
 )
 
 const (
-	hour      = time.Hour
+	hour = time.Hour
+	// stepTol is how far wall and monotonic clock may drift apart during a case
+	// before the case is discarded; eps is the guard band of every comparison
+	// of wall-clock stamps (two stamps of a kept case are consistent within
+	// 2*stepTol < eps).
+	stepTol   = 2 * time.Millisecond
+	eps       = int64(5 * time.Millisecond)
 	noBackoff = uint(1) << 40 // a Count that is never reached
 )
 
@@ -525,7 +531,7 @@ func (m *bmon) now() int64 {
 	t := time.Now()
 	wall := t.UnixNano()
 	drift := (wall - m.t0.UnixNano()) - int64(t.Sub(m.t0))
-	if drift > int64(2*time.Millisecond) || drift < -int64(2*time.Millisecond) {
+	if drift > int64(stepTol) || drift < -int64(stepTol) {
 		m.step = true
 	}
 	return wall
@@ -580,10 +586,10 @@ func (m *bmon) allowed(ip netip.Addr) bool {
 
 func (ks *keyModel) window(b, a, ivl int64) (lo, hi int) {
 	for _, e := range ks.events {
-		if !e.opt && a-e.B < ivl {
+		if !e.opt && a-e.B < ivl-eps {
 			lo++
 		}
-		if !(b-e.A > ivl) {
+		if !(b-e.A > ivl+eps) {
 			hi++
 		}
 	}
@@ -599,7 +605,7 @@ func (ks *keyModel) backoff(b, a int64, c bcfg) (certain, possible bool, recent 
 	}
 	kept := ks.hits[:0]
 	for _, h := range ks.hits {
-		if b-h.A <= keepFor {
+		if b-h.A <= keepFor+eps {
 			kept = append(kept, h)
 		}
 	}
@@ -616,7 +622,7 @@ func (ks *keyModel) backoff(b, a int64, c bcfg) (certain, possible bool, recent 
 		}
 		sure++
 		if sure == c.Count {
-			certain = a-kept[0].B < int64(c.Duration) && h.A-kept[0].B < int64(c.Period)
+			certain = a-kept[0].B < int64(c.Duration)-eps && h.A-kept[0].B < int64(c.Period)-eps
 			break
 		}
 	}
@@ -712,7 +718,7 @@ func (m *bmon) query(ip netip.Addr, qt uint16) (dropped bool) {
 		switch {
 		case lo < n:
 			m.viol("backoff:not-in-backoff-after-count-hits", "a subnet that exceeded the limit `count` times within the period was let through during the back-off duration", extra)
-		case ks.first != nil && a-ks.first.B >= int64(m.cfg.Period):
+		case ks.first != nil && a-ks.first.B >= int64(m.cfg.Period)-eps:
 			extra["since_first_counted_event_of_subnet_max"] = time.Duration(a - ks.first.B).String()
 			m.viol("backoff:window-forgotten-on-counter-expiry",
 				"a query passed although its subnet already had `limit` events within the interval; the subnet's first counted event is at least backoff_period old (per-subnet counter entry expired and the window was forgotten)", extra)
@@ -1369,7 +1375,7 @@ func profileCase(r *vkit.Run, i int) {
 	now := func() int64 {
 		t := time.Now()
 		d := (t.UnixNano() - t0.UnixNano()) - int64(t.Sub(t0))
-		if d > int64(2*time.Millisecond) || d < -int64(2*time.Millisecond) {
+		if d > int64(stepTol) || d < -int64(stepTol) {
 			stepped = true
 		}
 		return t.UnixNano()
@@ -1694,7 +1700,7 @@ func stackCase(r *vkit.Run, i int) {
 		tb := time.Now()
 		ran, writes, err := s.serve(enc, ip, qt, id)
 		ta := time.Now()
-		if d := (ta.UnixNano() - t0.UnixNano()) - int64(ta.Sub(t0)); d > int64(2*time.Millisecond) || d < -int64(2*time.Millisecond) {
+		if d := (ta.UnixNano() - t0.UnixNano()) - int64(ta.Sub(t0)); d > int64(stepTol) || d < -int64(stepTol) {
 			stepped = true
 		}
 		o := obs{ran, writes, gl.checks.Load() - chk, tb.UnixNano(), ta.UnixNano()}
@@ -1778,10 +1784,10 @@ func stackCase(r *vkit.Run, i int) {
 		s.respSize.Store(50)
 		lo, hi := 0, 0
 		for _, e := range evs {
-			if o.a-e.B < int64(time.Second) {
+			if o.a-e.B < int64(time.Second)-eps {
 				lo++
 			}
-			if !(o.b-e.A > int64(time.Second)) {
+			if !(o.b-e.A > int64(time.Second)+eps) {
 				hi++
 			}
 		}
